@@ -844,3 +844,112 @@ def generate_once(rng, index, small=False, forced=4):
 		builder.add_plain_struct()
 	text = '\n'.join(builder.decls)
 	return Schema(text, builder.constructs, len(builder.decls))
+
+
+# Fixed minimal schemas built ONLY from constructs of the shipped dialect on which the generator (or the module it emits) breaks the laws.
+# The random generator above is narrowed so that it does not hit them (each narrowing is marked where it is made); every run replays them
+# through the same pipeline and reports a failing one under the stable signature c15:<name>.
+PROBES = [
+	('child-without-own-members',
+		'a child of an abstract parent that adds no member of its own: StructFormatter.generate_serialize_fields calls next() on an empty iterator '
+		'(StopIteration, the CLI exits 1 and writes a truncated module)',
+		'''enum Kind : uint8
+	ALPHA = 1
+	BETA = 2
+
+@size(size)
+@initializes(type, ENTITY_TYPE)
+@discriminator(type)
+abstract struct Entity
+	size = uint32
+	type = Kind
+
+struct AlphaEntity
+	ENTITY_TYPE = make_const(Kind, ALPHA)
+	inline Entity
+
+struct BetaEntity
+	ENTITY_TYPE = make_const(Kind, BETA)
+	inline Entity
+	extra = uint16
+'''),
+	('factory-header-byte-array',
+		'an abstract parent whose own members include a byte array: <Parent>Factory.deserialize passes `bytes(payload)` (not a memoryview) to '
+		'Parent._deserialize, and ArrayHelpers.get_bytes calls .tobytes() on it (AttributeError for every input; the child\'s own deserialize works)',
+		'''enum Kind : uint8
+	ALPHA = 1
+
+@initializes(type, ENTITY_TYPE)
+@discriminator(type)
+abstract struct Entity
+	type = Kind
+	name_size = uint8
+	name = array(uint8, name_size)
+
+struct AlphaEntity
+	ENTITY_TYPE = make_const(Kind, ALPHA)
+	inline Entity
+	extra = uint16
+'''),
+	('struct-without-settable-members',
+		'a struct all of whose members are reserved: filter_size_if_first dereferences next(fields_iter, None) (AttributeError, the CLI exits 1)',
+		'''struct Padding
+	padding_reserved_1 = make_reserved(uint32, 0)
+'''),
+	('sort-key-member-named-type',
+		'a sort key member called `type` (allowed: name_formatting.fix_name renames the property to `type_`): TypedArrayPrinter._get_sort_accessor '
+		'emits `e.type`, which does not exist (AttributeError on every serialize / deserialize of the keyed array)',
+		'''using Amount = uint64
+
+struct Entry
+	type = Amount
+	weight = uint8
+
+struct Table
+	entries_count = uint8
+	@sort_key(type)
+	entries = array(Entry, entries_count)
+'''),
+	('member-named-buffer',
+		'a member called `buffer`: the generated deserialize keeps its cursor in a local of that name and the member\'s local overwrites it '
+		'(TypeError on every input)',
+		'''using Amount = uint64
+
+struct Entry
+	buffer = Amount
+	weight = uint8
+'''),
+	('member-named-instance',
+		'a member called `instance`: the generated deserialize keeps the object under construction in a local of that name; the member\'s local '
+		'replaces it and deserialize RETURNS THE MEMBER VALUE (an Amount) instead of the struct, silently',
+		'''using Amount = uint64
+
+struct Entry
+	instance = Amount
+	payload = uint8
+'''),
+	('unaligned-holder-of-aligned-family-with-array-children',
+		'a non-aligned struct holding a counted array of an @is_aligned abstract parent (the shipped `receipts` form) while a child of that parent '
+		'has an array member (the shipped aggregate / transfer form): util._propagate_unaligned raises RuntimeError("array field not handled")',
+		'''enum Kind : uint8
+	ALPHA = 1
+
+@size(size)
+@initializes(type, ENTITY_TYPE)
+@discriminator(type)
+@is_aligned
+abstract struct Entity
+	size = uint32
+	type = Kind
+
+struct AlphaEntity
+	ENTITY_TYPE = make_const(Kind, ALPHA)
+	inline Entity
+	note_size = uint8
+	note = array(uint8, note_size)
+
+struct Statement
+	entities_count = uint8
+	entities = array(Entity, entities_count)
+'''),
+]
